@@ -318,9 +318,9 @@ fn main() {
         json!({
             "not_generated_shapes": ["F-C04-1: try WITH finally left by return/break/continue/an error escaping a catch block",
                 "F-C04-4: error raised inside an open string interpolation",
-                "F-C04-5: break/continue out of a try body"],
+],
             "attributed_by_cause_rule": [],
-            "generated_again_after_fix": ["F-C04-2 (08c98b7..c937342): call results assigned directly to existing locals", "F-C04-3 (05bcc99): wrong-arg-count calls inside try bodies", "F-C04-6 (08c98b7): no attribution rule; generator errors must arrive with their thrown value"],
+            "generated_again_after_fix": ["F-C04-5 (0e9e81b): break/continue out of try bodies (also with a break value), nested loops/tries", "F-C04-2 (08c98b7..c937342): call results assigned directly to existing locals", "F-C04-3 (05bcc99): wrong-arg-count calls inside try bodies", "F-C04-6 (08c98b7): no attribution rule; generator errors must arrive with their thrown value"],
             "k2_family": "shapes of F-C04-1 ARE generated in the K2 family: the mechanism model must predict the real runtime there",
             "other_limits": ["loops never in value position", "strings are atoms (no string operations)", "objects with operators are created in main only", "keep/sort callbacks return Bool/Number by construction", "stack traces appended to messages are stripped before comparison"]
         }),
@@ -491,7 +491,7 @@ fn replay_findings(cx: &mut Ctx) {
 /// try/typed catch/finally, literal loops, break/continue, return, calls, `each` callbacks).
 /// Shapes of F-C04-1 ARE generated here (return anywhere, break/continue in catch blocks, errors
 /// escaping catch blocks of a try with finally): the mechanism model must predict what the real
-/// runtime does on them. Not generated: break/continue out of a try *body* (F-C04-5: the real
+/// runtime does on them. (break/continue out of a try *body* are generated since 0e9e81b; before, the real
 /// runtime may then never terminate and the model is faithful only up to the stale catch block).
 struct MG<'a> {
     rng: &'a mut Rng,
@@ -530,7 +530,7 @@ impl<'a> MG<'a> {
             2 => {
                 let has_fin = self.rng.chance(1, 2);
                 let mut body = vec![E::Emit(self.t(), None)];
-                if let E::Seq(es) = self.block(depth - 1, avail, in_fn, false) {
+                if let E::Seq(es) = self.block(depth - 1, avail, in_fn, brk_ok) {
                     body.extend(es);
                 }
                 let n_typed = self.rng.weighted(&[3, 2, 1]);
@@ -1143,9 +1143,22 @@ impl Prog {
 
 // ---------------------------------------------------------------- rendering to Koto
 
+/// a `break` that belongs to the loop whose body is `e` (not to a loop nested inside it)
+fn direct_brk(e: &E) -> bool {
+    match e {
+        E::Brk => true,
+        E::Seq(es) => es.iter().any(direct_brk),
+        E::If(_, t, el) => direct_brk(t) || direct_brk(el),
+        E::Try(b, cs, f) => direct_brk(b) || cs.iter().any(|c| direct_brk(&c.2)) || f.as_ref().is_some_and(|f| direct_brk(f)),
+        E::Assign(_, r) => direct_brk(r),
+        _ => false,
+    }
+}
+
 struct Renderer<'a> {
     out: String,
     tmp: u32,
+    brk_val: Vec<bool>,
     opts: &'a RenderOpts,
 }
 
@@ -1285,6 +1298,16 @@ impl<'a> Renderer<'a> {
         }
     }
 
+    /// Every other loop that contains a `break` of its own is rendered in value position
+    /// (`lv<k>_ = for …`, the temporary is never read) so that its breaks can carry a value: the
+    /// compiler clears the catch points of the try blocks a break leaves *after* evaluating the value.
+    fn loop_head(&mut self, body: &E) -> String {
+        self.tmp += 1;
+        let use_val = direct_brk(body) && self.tmp % 2 == 0;
+        self.brk_val.push(use_val);
+        if use_val { format!("lv{}_ = ", self.tmp) } else { String::new() }
+    }
+
     fn is_call_tail(e: &E) -> bool {
         matches!(e, E::Call(..) | E::Try(..) | E::If(..) | E::Seq(..))
     }
@@ -1347,15 +1370,26 @@ impl<'a> Renderer<'a> {
             }
             E::ForL(x, l, b) => {
                 let l = self.hoist(ind, l);
-                self.line(ind, &format!("for v{} in {}", x, l));
+                let head = self.loop_head(b);
+                self.line(ind, &format!("{}for v{} in {}", head, x, l));
                 self.block(ind + 1, b);
+                self.brk_val.pop();
             }
             E::ForG(x, g, es, b) => {
                 let v: Vec<String> = es.iter().map(|e| self.hoist(ind, e)).collect();
-                self.line(ind, &format!("for v{} in f{}({})", x, g, v.join(", ")));
+                let head = self.loop_head(b);
+                self.line(ind, &format!("{}for v{} in f{}({})", head, x, g, v.join(", ")));
                 self.block(ind + 1, b);
+                self.brk_val.pop();
             }
-            E::Brk => self.line(ind, "break"),
+            E::Brk => {
+                // `break` with a value when the enclosing loop is rendered in value position
+                if self.brk_val.last() == Some(&true) {
+                    self.line(ind, "break 7")
+                } else {
+                    self.line(ind, "break")
+                }
+            }
             E::Cont => self.line(ind, "continue"),
             E::Ret(v) => {
                 let v = self.hoist(ind, v);
@@ -1432,7 +1466,7 @@ impl Prog {
     }
 
     fn render(&self, opts: &RenderOpts) -> String {
-        let mut r = Renderer { out: String::new(), tmp: 0, opts };
+        let mut r = Renderer { out: String::new(), tmp: 0, brk_val: vec![], opts };
         r.line(0, "nul_ = null");
         r.line(0, "k1_ = |a| a");
         for g in 0..self.nglobals {
@@ -1512,8 +1546,6 @@ fn shape_walk(e: &E, s: Shape) -> Option<&'static str> {
         E::Brk | E::Cont => {
             if !s.in_loop {
                 Some("envelope:break/continue outside a loop")
-            } else if s.in_try_body && s.loops_since_try_body == 0 {
-                Some("F-C04-5:break/continue leaves a try body")
             } else if s.fin_region && s.loops_since_fin == 0 {
                 Some("F-C04-1:break/continue leaves a try with finally")
             } else {
@@ -2327,7 +2359,10 @@ impl<'a> G<'a> {
         let mut cb = cx;
         cb.depth = cx.depth.saturating_sub(1);
         cb.try_depth = cx.try_depth + 1;
-        cb.in_loop_ok = false; // break/continue would leave the try body (F-C04-5)
+        // break/continue may leave the try body (F-C04-5 repaired in 0e9e81b) unless the try has finally (F-C04-1)
+        if has_fin {
+            cb.in_loop_ok = false;
+        }
         cb.no_escape = false;
         if has_fin {
             cb.ret_ok = false; // F-C04-1
